@@ -23,6 +23,7 @@ fn arg(args: &[String], name: &str) -> Option<String> {
 fn exec(prop: &str, plan: &Rc<Plan>) -> Result<Executed, String> {
     match check::world_of(prop) {
         'A' => check::execute_a(prop, plan),
+        'C' => check::execute_c(prop, plan),
         w => Err(format!("harness: world {w} not available in this worker for {prop}")),
     }
 }
@@ -71,7 +72,11 @@ fn common(args: &[String]) -> Result<Common, String> {
 fn plan_for(c: &Common, index: u64) -> (u64, Plan) {
     let prof = check::profile_for(&c.prop, &c.tier);
     let run_seed = splitmix(c.seed ^ prop_salt(&c.prop), index);
-    (run_seed, genplan::gen_plan(run_seed, &prof))
+    let mut plan = genplan::gen_plan(run_seed, &prof);
+    if check::world_of(&c.prop) == 'C' {
+        check::decorate_for_world_c(&c.prop, &mut plan);
+    }
+    (run_seed, plan)
 }
 
 fn prop_salt(prop: &str) -> u64 {
@@ -91,7 +96,12 @@ fn run(args: &[String]) -> Result<u8, String> {
         let (run_seed, plan) = plan_for(&c, i);
         let plan = Rc::new(plan);
         let e = exec(&c.prop, &plan)?;
-        stats.absorb_history(&plan, &e.history);
+        if let Some(h) = &e.history {
+            stats.absorb_history(&plan, h);
+        }
+        if let Some(ch) = &e.chistory {
+            stats.absorb_c(&plan, ch);
+        }
         for v in &e.violations {
             stats.violations += 1;
             let class = v.class();
@@ -102,7 +112,9 @@ fn run(args: &[String]) -> Result<u8, String> {
                 let rf = check::make_replay(&c.prop, c.seed, i, run_seed, &plan, v, &exec, 400)?;
                 stats.shrink_execs += rf.shrink_executions as u64;
                 fs::create_dir_all(&replay_dir).map_err(|e| e.to_string())?;
-                let path = replay_dir.join(format!("{}-{}-{}-{}.json", c.prop, check::build_name(), c.seed, i));
+                let mut ch = cucumber_sim::core::FNV_INIT;
+                cucumber_sim::core::fnv(&mut ch, class.as_bytes());
+                let path = replay_dir.join(format!("{}-{}-{}-{}-{:08x}.json", c.prop, check::build_name(), c.seed, i, ch as u32));
                 fs::write(&path, serde_json::to_string_pretty(&rf).map_err(|e| e.to_string())?).map_err(|e| e.to_string())?;
                 println!(
                     "{}",
@@ -125,7 +137,7 @@ fn replay(args: &[String]) -> Result<u8, String> {
     let plan = Rc::new(rf.minimised_plan.clone());
     let e = exec(&rf.property, &plan)?;
     let same = e.violations.iter().find(|v| v.class() == rf.class);
-    let digest = e.history.digest();
+    let digest = e.digest();
     println!(
         "{}",
         serde_json::json!({"type":"replay","property":rf.property,"class":rf.class,"reproduced":same.is_some(),"digest_matches":digest==rf.digest,
@@ -148,7 +160,7 @@ fn digests(args: &[String]) -> Result<u8, String> {
         let (_, plan) = plan_for(&c, i);
         let plan = Rc::new(plan);
         let e = exec(&c.prop, &plan)?;
-        println!("{i} {:016x} {}", e.history.digest(), e.violations.len());
+        println!("{i} {:016x} {}", e.digest(), e.violations.len());
     }
     Ok(0)
 }
@@ -163,13 +175,27 @@ fn show(args: &[String]) -> Result<u8, String> {
     }
     let plan = Rc::new(plan);
     let e = exec(&c.prop, &plan)?;
-    for ev in &e.history.events {
-        println!("{}", ev.short());
+    if let Some(h) = &e.history {
+        for ev in &h.events {
+            println!("{}", ev.short());
+        }
+        for cb in &h.cb {
+            println!("CB {:?} {} #{} w={:?} [{}..{:?}] {:?} {:?}", cb.kind, cb.site, cb.ordinal, cb.world, cb.enter, cb.exit, cb.token, cb.finished_arg);
+        }
+        println!("end={:?} stats={:?}", h.end, h.stats);
     }
-    for cb in &e.history.cb {
-        println!("CB {:?} {} #{} w={:?} [{}..{:?}] {:?} {:?}", cb.kind, cb.site, cb.ordinal, cb.world, cb.enter, cb.exit, cb.token, cb.finished_arg);
+    if let Some(c) = &e.chistory {
+        println!("stack {} shape {:?}", c.stack, c.shape);
+        for ev in &c.input {
+            println!("IN  {}", ev.short());
+        }
+        for (name, out) in &c.outputs {
+            for (call, ev) in out {
+                println!("OUT[{name}] call={call} {}", ev.short());
+            }
+        }
+        println!("writes {:?} numbers {:?} end {:?}", c.writes, c.numbers, c.end);
     }
-    println!("end={:?} stats={:?}", e.history.end, e.history.stats);
     for v in &e.violations {
         println!("VIOL {} :: {}", v.class(), v.msg);
     }
